@@ -33,6 +33,17 @@ def _flat_ok(shape_entry):
     return isinstance(shape_entry, int)
 
 
+def _dense_volume(sl, f, level):
+    """number of cells a dense materialisation of the sub-tree at f would have (raw walk: declared shape or largest
+    coordinate + 1 per level); transforms such as linear flattening can make this millions from a 7x8x8 start"""
+    vol = 1
+    for i, lv in enumerate(ob.levels(f)):
+        ext = max([c + 1 for fb in lv for c in fb.coords if isinstance(c, int)], default=1)
+        sh = sl.shape[level + i] if level + i < len(sl.shape) else 0
+        vol *= max(ext, sh if isinstance(sh, int) else 0, 1)
+    return vol
+
+
 # ---------------------------------------------------------------------------- value-returning
 def op_vr(self, a, targets):
     """result = <operation>(slot src); result joins the world in slot dst"""
@@ -330,6 +341,8 @@ def op_ro(self, a, targets):
             elif kind == "uncompress":
                 if any(not _flat_ok(x) for x in sl.shape[level:]):
                     raise Skip("shape")
+                if _dense_volume(sl, f, level) > 60000:
+                    raise Skip("dense form too large")
                 f.uncompress()
             elif kind == "getitem":
                 if len(f.coords):
@@ -391,6 +404,8 @@ def op_ro(self, a, targets):
                 style = a.get("style", "tree")
                 if style != "tree" and any(not _flat_ok(x) for x in sl.shape):
                     raise Skip("shape")
+                if style != "tree" and _dense_volume(sl, sl.root, 0) > 60000:
+                    raise Skip("dense form too large")
                 hl = {}
                 if a.get("hl"):
                     # workers are names, PE numbers or PE coordinates (a list of [worker, points] pairs; older
